@@ -459,27 +459,35 @@ mod verif_c12 {
         kani::assume(min < max);
         let w = integer_bits(min, max);
         let stream: [u8; 9] = kani::any();
+        // any starting bit position within a byte: p filler bits are consumed first (p + w <= 71 bits always fit the 72-bit stream)
+        let p: usize = kani::any();
+        kani::assume(p < 8);
         let mut rb = ByteStreamReadBuffer::new();
         rb.append(&stream);
+        if p > 0 {
+            let f = rb.extract(p);
+            assert!(f.is_some());
+        }
         let a = rb.extract(w);
         let b = rb.extract(w);
-        // 72 bits always hold one value; a second one iff 2w <= 72
         let lo = u64::from_le_bytes([stream[0], stream[1], stream[2], stream[3], stream[4], stream[5], stream[6], stream[7]]);
         let all: u128 = (lo as u128) | ((stream[8] as u128) << 64);
         match a {
-            Some(x) => assert!(x & mask64(w) == (all as u64) & mask64(w)),
+            Some(x) => assert!(x & mask64(w) == ((all >> p) as u64) & mask64(w)),
             None => assert!(false),
         }
+        // a second value iff p + 2w <= 72
         match b {
             Some(x) => {
-                assert!(2 * w <= 72);
-                assert!(x & mask64(w) == ((all >> w) as u64) & mask64(w));
+                assert!(p + 2 * w <= 72);
+                assert!(x & mask64(w) == ((all >> (p + w)) as u64) & mask64(w));
             }
-            None => assert!(2 * w > 72),
+            None => assert!(p + 2 * w > 72),
         }
-        kani::cover!(w == 64);
+        kani::cover!(w == 64 && p == 7);
         kani::cover!(w == 1);
-        kani::cover!(w == 36);
+        kani::cover!(w == 36 && p == 0);
+        kani::cover!(w == 63 && p == 3);
         core::mem::forget(rb);
     }
 
